@@ -52,7 +52,7 @@ CHECKS = {
              "statement's precondition (all nodes registered => distinct ids); hand-written model of tree.py tied by correspondence.",
         design="5/C06"),
     "C07": dict(
-        technique="Lean 4 proof: bottom-up matcher over Tree tables = top-down documented semantics `sat` (reversal theorem), findall worklist sound/complete/duplicate-free w.r.t. `sat`; the element test and the bottom-up matcher are REGENERATED from match/xpath.py on every run (py2lean_k) and bridge theorems prove the model equal to them (match_gen_eq_sat) + differential correspondence (parse, findall, find, match on every node) vs real ASTXpath",
+        technique="Lean 4 proof: bottom-up matcher over Tree tables = top-down documented semantics `sat` (reversal theorem), findall worklist sound/complete/duplicate-free w.r.t. `sat`; the element test and the bottom-up matcher are REGENERATED from match/xpath.py on every run (py2lean_k) and bridge theorems prove the model equal to them (match_gen_eq_sat) + differential correspondence (parse, findall, find, match on every node) vs real ASTXpath; `ASTXpath.findall` (dummy root, `_unwrap`, the three nested loops) is regenerated too (py2lean_x) and bridged: GenBridgeFindall.findall_eq_gen (optional obligation, audited together with the matcher bridge)",
         text="Theorems (every tree without repeated objects, every element list): match(root, n) computed from the Tree tables = sat(chain of n); "
              "findall yields exactly (and once) the positions whose chain satisfies sat; find = head of findall; hence n in findall iff match. "
              "Parser: parseXPath (lexer with maximal munch, recursive descent, transformer walk) returns exactly the denoted elements for every rendering of every "
